@@ -256,7 +256,10 @@ def main(argv_tier=None, replay_path=None):
     vio_out += [("", "")] * max(0, len(viol) - 20)
     nontrivial = len({tuple(t["history"]) for t in traces
                       if any(e.get("out") == "ok" for e in t["ev"])})
+    from common import apalache_inductive
+    apa = apalache_inductive("APA_ServerSM", "SMInit", "SMNext", "IndInit", "IndInv")
     cov = {
+        "apalache_inductive_invariant": apa,
         "states": r.distinct, "transitions": r.generated,
         "traces_validated_against_impl": len(traces),
         "trace_validation_states": agg["distinct"],
